@@ -22,7 +22,9 @@ Stat(cl, nps) ==
 TCase ==
     /\ IsEvent("case")
     /\ r > 0 /\ Trace[r].t = Cur.t
-    /\ P!CaseOK(Trace[r], Cur.nps, Trace[r], Cur.pols, Defaulted)
+    \* "= TRUE" makes TLC evaluate the predicate as a state-level expression (short-circuit \/), not as an
+    \* action whose disjuncts are all explored
+    /\ P!CaseOK(Trace[r], Cur.nps, Trace[r], Cur.pols, Defaulted) = TRUE
     /\ Stat(Trace[r], Cur.nps)
     /\ UNCHANGED r
 
